@@ -36,7 +36,7 @@ def _filter_spec(rng, peripheral):
     if peripheral:
         hw = rng.choice([0x9B, 0xAD, 0xC0, 0xBE, 0x9C, 0x123, 0x3FFF, 0x01])
         return "0101%04X" % hw
-    n = rng.choice([1, 2, 3, 4])
+    n = rng.choice([1, 2, 3, 4, 1, 2, 3, 4, 0])
     ents = []
     for i in range(n):
         e = rng.choice([0x9B, 0xAD, 0xC0, 0xBE, 0x9C, 0xB7, 0x0B, 0x0C, 0x222])
